@@ -258,6 +258,13 @@ where
             None => return Err(Error::CardNotFound),
         };
         if blocks.len() == 1 {
+            // The error bits of the card status stay set until they are read,
+            // and an earlier transfer may have left some behind (a multi-block
+            // read up to the last block sets OUT_OF_RANGE although nothing is
+            // wrong). Read them now, so that the check after the data block
+            // reports on this write only.
+            self.card_command(CMD13, 0)?;
+            self.read_byte()?;
             // Start a single-block write - unless the card refuses the command:
             // a card that stays in its command state would take the data
             // block for a series of commands
